@@ -50,7 +50,7 @@ def cfg(pid, tier):
         S("int", "bool", "octets", "utf8", "bits", "null", "struct2", "choice2", "sliceint", "slicestruct"),
         TagPairs=S((0, 1), (30, 31), (127, 128), (16383, 16384)) if not quick else S((0, 1), (30, 31), (127, 128)),
         Leafs=S("small", "boundary"), Seeds=S(1, 2) if quick else S(1, 2, 3, 4, 5, 6),
-        Strategies=S("none", "all", "rand") if quick else S("none", "all", "rand", "only"),
+        Strategies=S("none", "all", "rand", "holes", "emptylists") if quick else S("none", "all", "rand", "only", "holes", "emptylists"),
         FuzzFirst="{" + ", ".join(str(a) for a in ALPHA) + "}" if pid == "C16" else "{}",
         EmitOneIn=1)
     return c
